@@ -86,6 +86,11 @@ def gen(rng, ctx):
                 cd["edges"].append([rng.choice(drivers), pin])
             elif p in ("clk", "CK", "CP"):
                 cd["edges"].append(["clock", pin])
+            elif rng.random() < 0.25 and k > 0:
+                # driven by logic that only an earlier flop's Q reaches (dropped together with the pin)
+                gname = f"rq{k}_{p}"
+                cd["nodes"].append([gname, rng.choice(["not", "buf"]), False])
+                cd["edges"] += [[f"q{k - 1}", gname], [gname, pin]]
             elif rng.random() < 0.5:
                 if not any(x[0] == "rst" for x in cd["nodes"]):
                     cd["nodes"].append(["rst", "input", False])
@@ -101,6 +106,23 @@ def gen(rng, ctx):
                 for g in rng.sample(multi, min(len(multi), rng.randint(0 if isout else 1, 2))):
                     cd["edges"].append([w, g])
                 drivers.append(w)
+    # a flop whose Q reaches nothing but a pin that sequential_unroll drops
+    edges_to = {e[1] for e in cd["edges"]}
+    spare = [n for n, t, _ in cd["nodes"] if t == "bb_input" and n not in edges_to and not n.endswith("." + fl["d"])]
+    if spare and rng.random() < 0.5 and nf < 3:
+        inst = f"r{nf}"
+        cd["bbs"][inst] = {"name": fl["name"], "inputs": list(fl["inputs"]), "outputs": list(fl["outputs"])}
+        for p_ in fl["inputs"]:
+            cd["nodes"].append([f"{inst}.{p_}", "bb_input", False])
+            if p_ == fl["d"]:
+                cd["edges"].append([rng.choice(drivers), f"{inst}.{p_}"])
+            elif p_ in ("clk", "CK", "CP"):
+                cd["edges"].append(["clock", f"{inst}.{p_}"])
+        for p_ in fl["outputs"]:
+            cd["nodes"].append([f"{inst}.{p_}", "bb_output", False])
+        cd["nodes"] += [["qz", "buf", False], ["nz", "not", False]]
+        cd["edges"] += [[f"{inst}.{fl['q']}", "qz"], ["qz", "nz"], ["nz", rng.choice(spare)]]
+        nf += 1
     free_in = ni + (1 if any(x[0] == "rst" for x in cd["nodes"]) else 0) + 1
     iv_mode = rng.choice(["none", "none", "0", "1", "x", "dict", "dict"])
     if iv_mode == "dict":
@@ -216,6 +238,12 @@ def check(case, ctx):
     iv = case["initial_values"]
     kw = dict(ignore_pins=case["ignore_pins"], add_flop_outputs=case["add_flop_outputs"], initial_values=(dict(iv) if isinstance(iv, dict) else iv), remove_unloaded=case["remove_unloaded"], prefix=case["prefix"])
     what = f"sequential_unroll(n={n}, {D}, {Q}, {kw})"
+    # a copy made (and edited) before the call must not matter to the original
+    if len(cd["nodes"]) % 3 == 0:
+        cc = c.copy()
+        cc.blackboxes["zz_phantom"] = cg.BlackBox("zz", ["a"], ["b"])
+        cc.graph.add_node("zz_phantom.a", type="bb_input", output=False)
+        ctx.count("copy_edited_before_call")
     ok, r = ctx.call(cg.tx.sequential_unroll, c, n, D, Q, **kw)
     if ok and isinstance(iv, dict) and iv:
         # the same initial_values object used for a second call (callers sweep n with one dict)
@@ -244,6 +272,8 @@ def check(case, ctx):
     ctx.count(f"flops:{len(net.bbs)}")
     if isinstance(case["ignore_pins"], str):
         ctx.count("str_ignore_pins")
+    if "qz" in net.types:
+        ctx.count("flop_q_reaches_only_dropped_pin")
     if n < 2:
         ctx.trivial()
     insts = sorted(net.bbs)
@@ -343,5 +373,5 @@ def check(case, ctx):
 
 
 def gates(counters, table, tier):
-    need = ["iv_dict_reused", "feedthrough_state_pair", "str_ignore_pins", "cmp:unroll", "cmp:sequential_unroll", "pairs:0", "pairs:1", "pairs:2", "iv:None", "iv:0", "iv:1", "iv:dict", "iv:x", "flop_outputs:True", "flop_outputs:False", "remove_unloaded:True", "remove_unloaded:False", "n:1", "n:3", "flops:1", "flops:2", "flops:3"]
+    need = ["flop_q_reaches_only_dropped_pin", "copy_edited_before_call", "iv_dict_reused", "feedthrough_state_pair", "str_ignore_pins", "cmp:unroll", "cmp:sequential_unroll", "pairs:0", "pairs:1", "pairs:2", "iv:None", "iv:0", "iv:1", "iv:dict", "iv:x", "flop_outputs:True", "flop_outputs:False", "remove_unloaded:True", "remove_unloaded:False", "n:1", "n:3", "flops:1", "flops:2", "flops:3"]
     return [f"{k} seen {counters.get(k, 0)} times" for k in need if counters.get(k, 0) < 5]
